@@ -203,6 +203,9 @@ func (e *Encoder) writeValue(val reflect.Value, tagType byte) error {
 		if !isText {
 			str = []byte(val.String())
 		}
+		if len(str) > maxStringLen {
+			return errStringTooLong
+		}
 		if err := writeInt16(e.w, int16(len(str))); err != nil {
 			return err
 		}
@@ -415,11 +418,19 @@ func getTagTypeByType(vk reflect.Type) byte {
 	}
 }
 
+// maxStringLen is the longest string or tag name the format can hold: the length field has 16 bits.
+const maxStringLen = 1<<16 - 1
+
+var errStringTooLong = errors.New("nbt: string or tag name longer than 65535 bytes")
+
 func writeTag(w io.Writer, tagType byte, tagName string) error {
 	if _, err := w.Write([]byte{tagType}); err != nil {
 		return err
 	}
 	bName := []byte(tagName)
+	if len(bName) > maxStringLen {
+		return errStringTooLong
+	}
 	if err := writeInt16(w, int16(len(bName))); err != nil {
 		return err
 	}
